@@ -275,10 +275,18 @@ Qed.
 Definition fresh (d : doc) : Prop := forall k, maps d k = build_map (props d k).
 Definition ord_props (d : doc) : Prop := forall k n, In n (props d k) -> special n = false.
 Definition ref_ok (m : smap) (r : ref) : Prop := ridx r = map_find m (rname r).
-Definition ent_ok_at (d : doc) (t : ety) (e : ent) : Prop :=
-  ref_ok (maps d (k1 t)) (er1 e) /\ ref_ok (maps d KCirc) (er2 e).
+(* generic shape of the invariants: a predicate on every stored reference, which may look at
+   the property lists and the maps *)
+Definition rpred := (kind -> list string) -> (kind -> smap) -> kind -> ref -> Prop.
+Definition ent_R (R : rpred) (d : doc) (t : ety) (e : ent) : Prop :=
+  R (props d) (maps d) (k1 t) (er1 e) /\ R (props d) (maps d) KCirc (er2 e).
+Definition GI (R : rpred) (d : doc) : Prop :=
+  fresh d /\ ord_props d /\ (forall t e, In e (ents d t) -> ent_R R d t e) /\ uniq d.
+(* repaired variant: the stored index is what the (fresh) map gives for the stored name *)
+Definition Rfix : rpred := fun _ m k r => ref_ok (m k) r.
+Definition ent_ok_at (d : doc) (t : ety) (e : ent) : Prop := ent_R Rfix d t e.
 Definition ents_ok (d : doc) : Prop := forall t e, In e (ents d t) -> ent_ok_at d t e.
-Definition Inv (d : doc) : Prop := fresh d /\ ord_props d /\ ents_ok d /\ uniq d.
+Definition Inv (d : doc) : Prop := GI Rfix d.
 
 Lemma last_index_absent : forall l n, mem n l = false -> last_index l n = None.
 Proof.
@@ -294,7 +302,7 @@ Qed.
 
 Lemma Inv_sound : forall d, Inv d -> ents_sound d.
 Proof.
-  intros d [Hf [_ [Ho _]]] t e Hin. destruct (Ho t e Hin) as [H1 H2].
+  intros d [Hf [_ [Ho _]]] t e Hin. destruct (Ho t e Hin) as [H1 H2]. unfold Rfix in H1, H2.
   rewrite Hf in H1, H2. split; apply ref_ok_sound; assumption.
 Qed.
 
@@ -363,16 +371,19 @@ Proof.
   intro k'. unfold upd. destruct (kind_eqb k k') eqn:E; [apply kind_eqb_eq in E; subst|]; apply Hp.
 Qed.
 
-(* -- entity-list steps ------------------------------------------------------------------ *)
+(* -- entity-list steps (generic in the reference predicate) ------------------------------ *)
+Section Generic.
+Variable R : rpred.
+
 Lemma sim_updt : forall (f : ety -> list ent) (g : ety -> list aent) t l l',
   (forall t', map strip (f t') = g t') -> map strip l = l' ->
   forall t', map strip (updt f t l t') = updt g t l' t'.
 Proof. intros. unfold updt. destruct (ety_eqb t t'); auto. Qed.
 
 Lemma Inv_with_ents : forall d t l n',
-  Inv d -> (forall e, In e l -> ent_ok_at d t e) ->
+  GI R d -> (forall e, In e l -> ent_R R d t e) ->
   NoDup (map eid l) -> (forall e, In e l -> eid e < n') -> nextid d <= n' ->
-  Inv (mkdoc (props d) (maps d) (updt (ents d) t l) n').
+  GI R (mkdoc (props d) (maps d) (updt (ents d) t l) n').
 Proof.
   intros d t l n' [Hf [Ho [Hok Hu]]] Hl Hnd Hlt Hle. split; [|split; [|split]].
   - exact Hf.
@@ -389,12 +400,12 @@ Qed.
 Definition keeps (f : ent -> ent) : Prop := forall e, eid (f e) = eid e /\ er1 (f e) = er1 e /\ er2 (f e) = er2 e.
 
 Lemma Inv_map_all : forall d (f : ety -> ent -> ent),
-  Inv d -> (forall t, keeps (f t)) ->
-  Inv (mkdoc (props d) (maps d) (fun t => map (f t) (ents d t)) (nextid d)).
+  GI R d -> (forall t, keeps (f t)) ->
+  GI R (mkdoc (props d) (maps d) (fun t => map (f t) (ents d t)) (nextid d)).
 Proof.
   intros d f [Hf [Ho [Hok Hu]]] Hk. split; [|split; [|split]]; try assumption.
   - intros t e Hin. simpl in Hin. apply in_map_iff in Hin. destruct Hin as [e0 [He Hin]]. subst e.
-    destruct (Hk t e0) as [_ [K1 K2]]. unfold ent_ok_at. rewrite K1, K2. apply (Hok t e0 Hin).
+    destruct (Hk t e0) as [_ [K1 K2]]. unfold ent_R. simpl. rewrite K1, K2. apply (Hok t e0 Hin).
   - intro t. simpl. destruct (Hu t) as [H1 H2]. rewrite map_map.
     rewrite (map_ext _ eid) by (intro e; apply (Hk t e)). split; [exact H1|].
     intros e Hin. apply in_map_iff in Hin. destruct Hin as [e0 [He Hin]]. subst e.
@@ -404,7 +415,7 @@ Qed.
 Lemma keeps_set_sel : forall b, keeps (set_sel b).
 Proof. intros b e. repeat split. Qed.
 
-Lemma unselect_Inv : forall d, Inv d -> Inv (unselect_all d).
+Lemma unselect_Inv : forall d, GI R d -> GI R (unselect_all d).
 Proof. intros. apply (Inv_map_all d (fun _ => set_sel false)); [assumption|intro; apply keeps_set_sel]. Qed.
 Lemma unselect_Sim : forall d a, Sim d a -> Sim (unselect_all d) (aunselect a).
 Proof.
@@ -427,8 +438,8 @@ Qed.
 
 (* replacing the entities of one type by conditionally modified ones *)
 Lemma Inv_cond : forall d t (c : ent -> bool) (f : ent -> ent),
-  Inv d -> (forall e, eid (f e) = eid e) -> (forall e, In e (ents d t) -> ent_ok_at d t (f e)) ->
-  Inv (with_ents d t (map (fun e => if c e then f e else e) (ents d t))).
+  GI R d -> (forall e, eid (f e) = eid e) -> (forall e, In e (ents d t) -> ent_R R d t (f e)) ->
+  GI R (with_ents d t (map (fun e => if c e then f e else e) (ents d t))).
 Proof.
   intros d t c f HI Hid Hf. pose proof HI as [_ [_ [Hok Hu]]]. apply Inv_with_ents; auto.
   - intros e' Hin. apply In_map_cond in Hin. destruct Hin as [e [Hin [E|E]]]; subst e'; [apply Hf|apply Hok]; exact Hin.
@@ -438,13 +449,6 @@ Qed.
 
 Lemma rname_arg_ref : forall m a dflt, rname (arg_ref m a dflt) = arg_name a dflt.
 Proof. intros. destruct a; reflexivity. Qed.
-
-Lemma arg_ref_ok : forall d k a dflt,
-  fresh d -> ord_props d -> special dflt = true -> ref_ok (maps d k) (arg_ref (maps d k) a dflt).
-Proof.
-  intros. unfold ref_ok. destruct a; simpl; [reflexivity|].
-  symmetry. apply map_find_special; assumption.
-Qed.
 
 Lemma Sim_cond : forall d a t (c : ent -> bool) (f : ent -> ent) (af : aent -> aent),
   Sim d a -> (forall e, strip (if c e then f e else e) = if asel (strip e) then af (strip e) else strip e) ->
@@ -542,18 +546,175 @@ Proof.
 Qed.
 
 Lemma Inv_append : forall d t cs n',
-  Inv d -> (forall c, In c cs -> exists t0 e, In e (ents d t0) /\ k1 t0 = k1 t /\ same_refs c e) ->
-  nextid d <= n' -> (forall c, In c cs -> nextid d <= eid c < n') -> NoDup (map eid cs) ->
-  Inv (mkdoc (props d) (maps d) (updt (ents d) t (ents d t ++ cs)) n').
+  GI R d -> (forall c, In c cs -> exists t0 e, In e (ents d t0) /\ k1 t0 = k1 t /\ same_refs c e) ->
+  nextid d <= n' -> (forall c, In c cs -> eid c < n') ->
+  (forall c e, In c cs -> In e (ents d t) -> eid e < eid c) -> NoDup (map eid cs) ->
+  GI R (mkdoc (props d) (maps d) (updt (ents d) t (ents d t ++ cs)) n').
 Proof.
-  intros d t cs n' HI Hc Hle Hid Hnd. pose proof HI as [_ [_ [Hok Hu]]]. apply Inv_with_ents; auto.
+  intros d t cs n' HI Hc Hle Hid Hlo Hnd. pose proof HI as [_ [_ [Hok Hu]]]. apply Inv_with_ents; auto.
   - intros e Hin. apply in_app_or in Hin. destruct Hin as [Hin|Hin]; [apply Hok; exact Hin|].
     destruct (Hc e Hin) as [t0 [e0 [Hin0 [Hk [S1 S2]]]]]. destruct (Hok t0 e0 Hin0) as [O1 O2].
-    unfold ent_ok_at. rewrite S1, S2, <- Hk. split; assumption.
+    unfold ent_R in *. rewrite S1, S2, <- Hk. split; assumption.
   - rewrite map_app. apply nodup_app; [apply (Hu t)|exact Hnd|].
-    intros x H1 H2. apply in_map_iff in H1. destruct H1 as [e1 [E1 H1]]. apply (Hu t) in H1.
-    apply in_map_iff in H2. destruct H2 as [e2 [E2 H2]]. specialize (Hid e2 H2). lia.
+    intros x H1 H2. apply in_map_iff in H1. destruct H1 as [e1 [E1 H1]].
+    apply in_map_iff in H2. destruct H2 as [e2 [E2 H2]]. specialize (Hlo e2 e1 H2 H1). lia.
   - intros e Hin. apply in_app_or in Hin. destruct Hin as [Hin|Hin]; [apply (Hu t) in Hin; lia|apply Hid; exact Hin].
+Qed.
+
+Lemma set_step : forall d a t (r1 r2 : ref) (keep2 : bool) n1 n2,
+  GI R d -> Sim d a ->
+  R (props d) (maps d) (k1 t) r1 -> (keep2 = false -> R (props d) (maps d) KCirc r2) -> rname r1 = n1 -> rname r2 = n2 ->
+  let d' := set_selected d t (fun e => set_refs r1 (if keep2 then er2 e else r2) e) in
+  GI R d' /\
+  Sim d' (aset_selected a t (fun e => mkaent (aid e) (asel e) n1 (if keep2 then an2 e else n2) (aa e) (ab e))).
+Proof.
+  intros d a t r1 r2 keep2 n1 n2 HI HS O1 O2 E1 E2 d'. split.
+  - subst d'. unfold set_selected. apply Inv_cond; auto.
+    intros e Hin. destruct HI as [_ [_ [Hok _]]]. split; simpl; [exact O1|].
+    destruct keep2; [apply (Hok t e Hin)|apply O2; reflexivity].
+  - subst d'. unfold set_selected. apply Sim_cond; auto.
+    intro e. destruct e as [i s q1 q2 x y]. unfold strip. simpl. destruct s; simpl; [|reflexivity].
+    rewrite E1. destruct keep2; [|rewrite E2]; reflexivity.
+Qed.
+
+Lemma copy_simple_step : forall d a t cs n',
+  GI R d -> Sim d a -> copy_simple (ents d t) (nextid d) = (cs, n') ->
+  GI R (mkdoc (props d) (maps d) (updt (ents d) t (ents d t ++ cs)) n') /\
+  Sim (mkdoc (props d) (maps d) (updt (ents d) t (ents d t ++ cs)) n')
+      (let '(acs, an') := acopy_simple (aents a t) (anext a) in
+       mkadoc (aprops a) (updt (aents a) t (aents a t ++ acs)) an').
+Proof.
+  intros d a t cs n' HI HS E. pose proof HS as [Hp [He Hn]]. pose proof HI as [_ [_ [_ Hu]]].
+  destruct (copy_simple_spec _ _ _ _ E) as [A [B [C [D F]]]]. split.
+  - apply Inv_append; auto.
+    + intros c Hc. destruct (B c Hc) as [e [Hin Hs]]. exists t, e. auto.
+    + intros c Hc. apply D. exact Hc.
+    + intros c e Hc Hin. specialize (D c Hc). apply (Hu t) in Hin. lia.
+  - rewrite <- He, <- Hn, A. split; [|split]; simpl; auto.
+    apply sim_updt; [exact He|]. rewrite map_app. reflexivity.
+Qed.
+
+Lemma copy_lines_step : forall d a t ns cs n',
+  t <> TNode -> GI R d -> Sim d a -> copy_lines (ents d TNode) (ents d t) (nextid d) = (ns, cs, n') ->
+  GI R (mkdoc (props d) (maps d) (updt (updt (ents d) TNode (ents d TNode ++ ns)) t (ents d t ++ cs)) n') /\
+  Sim (mkdoc (props d) (maps d) (updt (updt (ents d) TNode (ents d TNode ++ ns)) t (ents d t ++ cs)) n')
+      (let '(ans, acs, an') := acopy_lines (aents a TNode) (aents a t) (anext a) in
+       mkadoc (aprops a) (updt (updt (aents a) TNode (aents a TNode ++ ans)) t (aents a t ++ acs)) an').
+Proof.
+  intros d a t ns cs n' Ht HI HS E. pose proof HS as [Hp [He Hn]]. pose proof HI as [_ [_ [_ Hu]]].
+  destruct (copy_lines_spec _ _ _ _ _ _ E) as [A [B [C [D [F [G [I J]]]]]]]. split.
+  - assert (H1 : GI R (mkdoc (props d) (maps d) (updt (ents d) TNode (ents d TNode ++ ns)) n')).
+    { apply Inv_append; auto.
+      + intros c Hc. destruct (B c Hc) as [e [Hin Hs]]. exists TNode, e. auto.
+      + intros c Hc. apply F. exact Hc.
+      + intros c e Hc Hin. specialize (F c Hc). apply (Hu TNode) in Hin. lia. }
+    assert (Ho : updt (ents d) TNode (ents d TNode ++ ns) t = ents d t) by (apply updt_other; auto).
+    pose proof (Inv_append _ t cs n' H1) as H2. simpl in H2. rewrite Ho in H2. apply H2; auto.
+    + intros c Hc. destruct (C c Hc) as [e [Hin Hs]]. exists t, e. rewrite Ho. auto.
+    + intros c Hc. apply G. exact Hc.
+    + intros c e Hc Hin. specialize (G c Hc). apply (Hu t) in Hin. lia.
+  - rewrite <- !He, <- Hn, A. split; [|split]; simpl; auto.
+    apply sim_updt; [|rewrite map_app; reflexivity].
+    apply sim_updt; [exact He|rewrite map_app; reflexivity].
+Qed.
+
+Definition is_entity_op (o : op) : bool :=
+  match o with Add _ _ | Del _ _ | Rename _ _ _ | Reopen => false | _ => true end.
+Definition args_ok (ph : phys) (d : doc) (o : op) : Prop :=
+  match o with
+  | SetNode p c => R (props d) (maps d) KPoint (arg_ref (maps d KPoint) p sNone) /\
+                   (is_mag ph = false -> R (props d) (maps d) KCirc (arg_ref (maps d KCirc) c sNone))
+  | SetSeg b c => R (props d) (maps d) KBdry (arg_ref (maps d KBdry) b sNone) /\
+                  (is_mag ph = false -> R (props d) (maps d) KCirc (arg_ref (maps d KCirc) c sNone))
+  | SetArc b c => R (props d) (maps d) KBdry (arg_ref (maps d KBdry) b sEmpty) /\
+                  (is_mag ph = false -> R (props d) (maps d) KCirc (arg_ref (maps d KCirc) c sNone))
+  | SetLabel m c => R (props d) (maps d) KBlock (arg_ref (maps d KBlock) m sNone) /\
+                    (is_mag ph = true -> R (props d) (maps d) KCirc (arg_ref (maps d KCirc) c sNone))
+  | AddEnt t _ _ => R (props d) (maps d) (k1 t) (default_r1 t) /\ R (props d) (maps d) KCirc dref
+  | _ => True
+  end.
+
+(* every command that leaves the property lists alone (any variant: [post] is not involved) *)
+Lemma entity_step : forall fx ph o d a,
+  is_entity_op o = true -> args_ok ph d o -> GI R d -> Sim d a ->
+  GI R (step fx ph o d) /\ Sim (step fx ph o d) (astep ph o a).
+Proof.
+  intros fx ph o d a Hent Hargs HI HS.
+  pose proof HI as [Hf [Ho [Hok Hu]]]. pose proof HS as [Hp [He Hn]].
+  destruct o; simpl in Hent; try discriminate; simpl in Hargs.
+  - (* AddEnt *)
+    assert (Hnew : ent_R R d t (mkent (nextid d) false (default_r1 t) dref
+                     (match t with TSeg | TArc => a0 | _ => 0 end) (match t with TSeg | TArc => b | _ => 0 end))).
+    { exact Hargs. }
+    assert (H1 : GI R (mkdoc (props d) (maps d)
+                   (updt (ents d) t (ents d t ++ [mkent (nextid d) false (default_r1 t) dref
+                     (match t with TSeg | TArc => a0 | _ => 0 end) (match t with TSeg | TArc => b | _ => 0 end)])) (S (nextid d)))).
+    { apply Inv_with_ents; auto.
+      - intros e Hin. apply in_app_or in Hin. destruct Hin as [Hin|[Hin|[]]]; [apply Hok; exact Hin|subst e; exact Hnew].
+      - rewrite map_app. apply nodup_app; [apply (Hu t)|simpl; repeat constructor; intros []|].
+        intros x H1 [H2|[]]. subst x. apply in_map_iff in H1. destruct H1 as [e [E H1]]. apply (Hu t) in H1. simpl in E. lia.
+      - intros e Hin. apply in_app_or in Hin. destruct Hin as [Hin|[Hin|[]]]; [apply (Hu t) in Hin; lia|subst e; simpl; lia]. }
+    assert (S1 : Sim (mkdoc (props d) (maps d)
+                   (updt (ents d) t (ents d t ++ [mkent (nextid d) false (default_r1 t) dref
+                     (match t with TSeg | TArc => a0 | _ => 0 end) (match t with TSeg | TArc => b | _ => 0 end)])) (S (nextid d)))
+                 (mkadoc (aprops a) (updt (aents a) t (aents a t ++ [mkaent (anext a) false (default_n1 t) sNone
+                     (match t with TSeg | TArc => a0 | _ => 0 end) (match t with TSeg | TArc => b | _ => 0 end)])) (S (anext a)))).
+    { split; [|split]; simpl; auto. apply sim_updt; [exact He|]. rewrite map_app, He, Hn. simpl. unfold strip. simpl.
+      destruct t; reflexivity. }
+    simpl. unfold do_addent. destruct t; simpl; (split; [try apply unselect_Inv; exact H1|try apply unselect_Sim; exact S1]).
+  - (* Select *)
+    simpl. unfold do_select. split.
+    + apply (Inv_cond d t (has_id id) (fun e => set_sel (negb (esel e)) e)); auto. intros e Hin. apply (Hok t e Hin).
+    + split; [|split]; simpl; auto. apply sim_updt; [exact He|]. rewrite <- He, !map_map. apply map_ext.
+      intro e. unfold has_id, strip. simpl. destruct (Nat.eqb (eid e) id); reflexivity.
+  - (* ClearSel *)
+    simpl. split; [apply unselect_Inv|apply unselect_Sim]; assumption.
+  - (* SetNode *)
+    simpl. unfold do_setnode. destruct Hargs as [A1 A2].
+    apply (set_step d a TNode (arg_ref (maps d KPoint) p sNone) (arg_ref (maps d KCirc) c sNone) (is_mag ph) (arg_name p sNone) (arg_name c sNone));
+      auto; apply rname_arg_ref.
+  - (* SetSeg *)
+    simpl. unfold do_setseg. destruct Hargs as [A1 A2].
+    apply (set_step d a TSeg (arg_ref (maps d KBdry) b sNone) (arg_ref (maps d KCirc) c sNone) (is_mag ph) (arg_name b sNone) (arg_name c sNone));
+      auto; apply rname_arg_ref.
+  - (* SetArc *)
+    simpl. unfold do_setarc. destruct Hargs as [A1 A2].
+    apply (set_step d a TArc (arg_ref (maps d KBdry) b sEmpty) (arg_ref (maps d KCirc) c sNone) (is_mag ph) (arg_name b sEmpty) (arg_name c sNone));
+      auto; apply rname_arg_ref.
+  - (* SetLabel *)
+    simpl. unfold do_setlabel. destruct Hargs as [A1 A2].
+    destruct (is_mag ph) eqn:Em.
+    + apply (set_step d a TLabel (arg_ref (maps d KBlock) m sNone) (arg_ref (maps d KCirc) c sNone) false (arg_name m sNone) (arg_name c sNone));
+        auto; apply rname_arg_ref.
+    + apply (set_step d a TLabel (arg_ref (maps d KBlock) m sNone) (arg_ref (maps d KCirc) c sNone) true (arg_name m sNone) (arg_name c sNone));
+        auto; try apply rname_arg_ref; try discriminate.
+  - (* Copy *)
+    simpl. unfold do_copy. destruct t.
+    + destruct (copy_simple (ents d TNode) (nextid d)) as [cs n'] eqn:E.
+      destruct (copy_simple_step d a TNode cs n' HI HS E) as [A B].
+      destruct (acopy_simple (aents a TNode) (anext a)) as [acs an']. split; [apply unselect_Inv|apply unselect_Sim]; assumption.
+    + destruct (copy_lines (ents d TNode) (ents d TSeg) (nextid d)) as [[ns cs] n'] eqn:E.
+      destruct (copy_lines_step d a TSeg ns cs n' ltac:(discriminate) HI HS E) as [A B].
+      destruct (acopy_lines (aents a TNode) (aents a TSeg) (anext a)) as [[ans acs] an']. split; [apply unselect_Inv|apply unselect_Sim]; assumption.
+    + destruct (copy_lines (ents d TNode) (ents d TArc) (nextid d)) as [[ns cs] n'] eqn:E.
+      destruct (copy_lines_step d a TArc ns cs n' ltac:(discriminate) HI HS E) as [A B].
+      destruct (acopy_lines (aents a TNode) (aents a TArc) (anext a)) as [[ans acs] an']. split; [apply unselect_Inv|apply unselect_Sim]; assumption.
+    + destruct (copy_simple (ents d TLabel) (nextid d)) as [cs n'] eqn:E.
+      destruct (copy_simple_step d a TLabel cs n' HI HS E) as [A B].
+      destruct (acopy_simple (aents a TLabel) (anext a)) as [acs an']. split; [apply unselect_Inv|apply unselect_Sim]; assumption.
+  - (* Move *)
+    simpl. split; [apply unselect_Inv|apply unselect_Sim]; assumption.
+  - (* Save *)
+    simpl. split; assumption.
+Qed.
+
+End Generic.
+
+Lemma arg_ref_ok : forall d k a dflt,
+  fresh d -> ord_props d -> special dflt = true -> ref_ok (maps d k) (arg_ref (maps d k) a dflt).
+Proof.
+  intros. unfold ref_ok. destruct a; simpl; [reflexivity|].
+  symmetry. apply map_find_special; assumption.
 Qed.
 
 (* -- save + re-open (repaired variant) --------------------------------------------------- *)
@@ -643,7 +804,7 @@ Proof.
     split; [|split; [|split]].
     + intro k. reflexivity.
     + exact Ho.
-    + intros t e' Hin. unfold ent_ok_at. simpl.
+    + intros t e' Hin. unfold ent_ok_at, ent_R, Rfix. simpl.
       destruct t; simpl in Hin.
       * destruct (Hsimple TNode (ents d TNode) (fun e H => H)) as [A _]. destruct (A e' Hin) as [e [_ [_ B]]]. exact B.
       * destruct (Hsimple TSeg (ents d TSeg) (fun e H => H)) as [A _]. destruct (A e' Hin) as [e [_ [_ B]]]. exact B.
@@ -687,4 +848,265 @@ Proof.
         rewrite C. f_equal. rewrite <- He. symmetry. apply filter_map_strip.
         intros e Hin. rewrite (Hhole e Hin). reflexivity.
     + exact Hn.
+Qed.
+
+(* -- one step of the repaired variant ---------------------------------------------------- *)
+Lemma args_ok_fixed : forall ph d o, fresh d -> ord_props d -> args_ok Rfix ph d o.
+Proof.
+  intros ph d o Hf Ho. destruct o; simpl; auto; try (split; [|intros _]; unfold Rfix; apply arg_ref_ok; auto).
+  destruct t; split; unfold Rfix, ref_ok; simpl; symmetry; apply map_find_special; auto.
+Qed.
+
+Lemma step_fixed : forall ph o d a,
+  op_ordinary o = true -> Inv d -> Sim d a ->
+  Inv (step true ph o d) /\ Sim (step true ph o d) (astep ph o a).
+Proof.
+  intros ph o d a Hord HI HS.
+  pose proof HI as [Hf [Ho [Hok Hu]]]. pose proof HS as [Hp [He Hn]].
+  destruct (is_entity_op o) eqn:Eo.
+  { apply entity_step; auto. apply args_ok_fixed; auto. }
+  destruct o; simpl in Eo; try discriminate; simpl in Hord.
+  - (* Add *)
+    simpl. unfold do_add, post. rewrite <- (Hp k). apply prop_step; auto.
+    intros x Hin. apply in_app_or in Hin. destruct Hin as [Hin|[Hin|[]]]; [eapply Ho; eauto|subst x].
+    apply negb_true_iff in Hord. exact Hord.
+  - (* Del *)
+    simpl. unfold do_del, post. rewrite <- (Hp k). apply prop_step; auto.
+    intros x Hin. apply In_erase_named in Hin. eapply Ho; eauto.
+  - (* Rename *)
+    apply negb_true_iff in Hord.
+    assert (Hfirst : forall rb, k <> KCirc ->
+              (if mem n (props d k) then post true (with_props d k (rename_first (props d k) n n') rb) else d) = step true ph (Rename k n n') d ->
+              Inv (step true ph (Rename k n n') d) /\ Sim (step true ph (Rename k n n') d) (astep ph (Rename k n n') a)).
+    { intros rb Hk Heq. rewrite <- Heq. simpl. unfold arename. rewrite <- (Hp k).
+      replace (match k with KCirc => rename_last (props d k) n n' | _ => rename_first (props d k) n n' end)
+        with (rename_first (props d k) n n') by (destruct k; try reflexivity; contradiction).
+      destruct (mem n (props d k)) eqn:Em.
+      - unfold post. apply prop_step; auto. intros x Hin. apply In_rename_first in Hin.
+        destruct Hin as [Hin|Hin]; [subst x; exact Hord|eapply Ho; eauto].
+      - rewrite (rename_first_absent _ _ _ Em). split; [exact HI|]. rewrite (Hp k). apply Sim_same_props. exact HS. }
+    destruct k.
+    + apply (Hfirst true); [discriminate|reflexivity].
+    + apply (Hfirst true); [discriminate|reflexivity].
+    + apply (Hfirst false); [discriminate|reflexivity].
+    + simpl. unfold do_rename, arename, rename_last. rewrite <- (Hp KCirc).
+      rewrite (Hf KCirc), map_find_build.
+      destruct (props d KCirc) as [|p0 l0] eqn:E.
+      * unfold last_index. simpl. split; [exact HI|].
+        pose proof (Sim_same_props d a KCirc HS) as H. rewrite <- (Hp KCirc), E in H. exact H.
+      * destruct (last_index (p0 :: l0) n) eqn:El.
+        -- unfold post. rewrite <- E. apply prop_step; auto. intros x Hin. apply In_set_nth in Hin.
+           destruct Hin as [Hin|Hin]; [subst x; exact Hord|eapply Ho; eauto].
+        -- split; [exact HI|].
+           pose proof (Sim_same_props d a KCirc HS) as H. rewrite <- (Hp KCirc), E in H. exact H.
+  - (* Reopen *)
+    simpl. apply reopen_Inv_Sim; assumption.
+Qed.
+
+(* ---------------------------------------------------------------------------------------- *)
+(* histories: the repaired variant                                                           *)
+Lemma ordinary_cons : forall o h, ordinary (o :: h) = true -> op_ordinary o = true /\ ordinary h = true.
+Proof. intros. unfold ordinary in *. simpl in H. apply andb_true_iff in H. exact H. Qed.
+
+Lemma run_fixed : forall ph h d a,
+  ordinary h = true -> Inv d -> Sim d a ->
+  Inv (run_from true ph d h) /\ Sim (run_from true ph d h) (arun_from ph a h).
+Proof.
+  induction h as [|o h IH]; intros d a Hord HI HS; simpl; [split; assumption|].
+  apply ordinary_cons in Hord. destruct Hord as [Ho Hh].
+  destruct (step_fixed ph o d a Ho HI HS) as [HI' HS']. apply IH; assumption.
+Qed.
+
+Lemma save_assoc_fixed : forall ph h t id s,
+  ordinary h = true -> has_slot ph t s = true ->
+  saved_meaning ph (run true ph h) t id s = of_assoc (assoc ph h t id s).
+Proof.
+  intros ph h t id s Hord Hslot. unfold run, assoc, arun.
+  destruct (run_fixed ph h init ainit Hord Inv_init Sim_init) as [HI HS].
+  apply saved_meaning_sound; auto; [apply Inv_sound; exact HI|apply HI].
+Qed.
+
+(* what the analysis uses (block labels by index, the rest by name) *)
+Lemma analysis_meaning_sound : forall ph d a t id s,
+  ents_sound d -> Sim d a -> has_slot ph t s = true ->
+  analysis_meaning ph d t id s = of_assoc (aassoc a t id s).
+Proof.
+  intros ph d a t id s Hs HS Hslot. pose proof HS as [Hp [He _]].
+  unfold analysis_meaning, aassoc, afind. rewrite <- He, find_map_strip.
+  destruct (find_ent (ents d t) id) eqn:F; simpl; [|reflexivity].
+  apply find_ent_In in F. destruct F as [Fin _]. destruct (Hs t e Fin) as [S1 S2].
+  destruct t; simpl.
+  - rewrite Hslot. rewrite resolve_last_index. destruct s; simpl; rewrite Hp; reflexivity.
+  - rewrite Hslot. rewrite resolve_last_index. destruct s; simpl; rewrite Hp; reflexivity.
+  - rewrite Hslot. rewrite resolve_last_index. destruct s; simpl; rewrite Hp; reflexivity.
+  - simpl in S1. rewrite <- (is_hole_ahole d a e HS S1).
+    destruct (is_hole e) eqn:Eh.
+    + destruct s; [reflexivity|]. simpl. rewrite <- Hp. unfold is_hole in Eh. unfold ref_sound in S1.
+      destruct (ridx (er1 e)); [discriminate|]. unfold name_meaning. rewrite S1. reflexivity.
+    + destruct s; simpl; rewrite <- Hp; apply resolve_sound; assumption.
+Qed.
+
+Lemma analysis_fixed : forall ph h t id s,
+  ordinary h = true -> has_slot ph t s = true ->
+  analysis_meaning ph (run true ph h) t id s = of_assoc (assoc ph h t id s).
+Proof.
+  intros ph h t id s Hord Hslot. unfold run, assoc, arun.
+  destruct (run_fixed ph h init ainit Hord Inv_init Sim_init) as [HI HS].
+  apply analysis_meaning_sound; auto. apply Inv_sound; exact HI.
+Qed.
+
+(* the association is the last assigned name or nothing — never another property *)
+Lemma aassoc_last_assigned : forall ph h t id s n,
+  assoc ph h t id s = Some n -> last_assigned ph h t id s = Some n.
+Proof.
+  intros ph h t id s n H. unfold assoc, aassoc, last_assigned in *.
+  destruct (afind (arun ph h) t id); [|discriminate].
+  unfold name_meaning in H.
+  destruct s.
+  - destruct t; try (destruct (mem (an2 a) (aprops (arun ph h) KCirc)); inversion H; reflexivity).
+    destruct (ahole (arun ph h) a); [discriminate|].
+    destruct (mem (an2 a) (aprops (arun ph h) KCirc)); inversion H; reflexivity.
+  - destruct (mem (an1 a) (aprops (arun ph h) (k1 t))); inversion H; reflexivity.
+Qed.
+
+(* ---------------------------------------------------------------------------------------- *)
+(* histories: the code as it is, without delete / rename / re-open and with defined names     *)
+Definition ref_calm (l : list string) (r : ref) : Prop :=
+  match ridx r with
+  | Some j => nth_error l j = Some (rname r)
+  | None => special (rname r) = true
+  end.
+Definition Rcalm : rpred := fun p _ k r => ref_calm (p k) r.
+Definition InvC (d : doc) : Prop := GI Rcalm d.
+
+Lemma InvC_sound : forall d, InvC d -> ents_sound d.
+Proof.
+  intros d [_ [Ho [Hok _]]] t e Hin. destruct (Hok t e Hin) as [H1 H2]. unfold Rcalm, ref_calm in *.
+  split; unfold ref_sound.
+  - destruct (ridx (er1 e)); [exact H1|eapply special_absent; eauto].
+  - destruct (ridx (er2 e)); [exact H2|eapply special_absent; eauto].
+Qed.
+
+Lemma InvC_init : InvC init.
+Proof.
+  repeat split; simpl; try reflexivity; try contradiction; try constructor.
+  intros k n H. contradiction.
+Qed.
+
+Lemma arg_ref_calm : forall d a k x dflt,
+  fresh d -> Sim d a -> special dflt = true -> arg_defined (aprops a k) x = true ->
+  ref_calm (props d k) (arg_ref (maps d k) x dflt).
+Proof.
+  intros d a k x dflt Hf [Hp _] Hs Hd. unfold ref_calm. destruct x as [n|]; simpl; [|exact Hs].
+  simpl in Hd. rewrite <- Hp in Hd. rewrite Hf, map_find_build.
+  destruct (last_index_mem _ _ Hd) as [j Hj]. rewrite Hj. apply last_index_some. exact Hj.
+Qed.
+
+Lemma args_ok_calm : forall ph d a o,
+  fresh d -> Sim d a -> op_defined ph a o = true -> args_ok Rcalm ph d o.
+Proof.
+  intros ph d a o Hf HS Hd. destruct o; simpl; auto; simpl in Hd.
+  - destruct t; split; reflexivity.
+  - apply andb_true_iff in Hd. destruct Hd as [D1 D2]. split; [|intro Hm; rewrite Hm in D2; simpl in D2];
+      unfold Rcalm; eapply arg_ref_calm; eauto.
+  - apply andb_true_iff in Hd. destruct Hd as [D1 D2]. split; [|intro Hm; rewrite Hm in D2; simpl in D2];
+      unfold Rcalm; eapply arg_ref_calm; eauto.
+  - apply andb_true_iff in Hd. destruct Hd as [D1 D2]. split; [|intro Hm; rewrite Hm in D2; simpl in D2];
+      unfold Rcalm; eapply arg_ref_calm; eauto.
+  - apply andb_true_iff in Hd. destruct Hd as [D1 D2]. split; [|intro Hm; rewrite Hm in D2; simpl in D2];
+      unfold Rcalm; eapply arg_ref_calm; eauto.
+Qed.
+
+Lemma step_calm : forall ph o d a,
+  op_calm o = true -> op_ordinary o = true -> op_defined ph a o = true -> InvC d -> Sim d a ->
+  InvC (step false ph o d) /\ Sim (step false ph o d) (astep ph o a).
+Proof.
+  intros ph o d a Hc Hord Hdef HI HS.
+  pose proof HI as [Hf [Ho [Hok Hu]]]. pose proof HS as [Hp [He Hn]].
+  destruct (is_entity_op o) eqn:Eo.
+  { apply entity_step; auto. eapply args_ok_calm; eauto. }
+  destruct o; simpl in Eo; try discriminate; simpl in Hc; try discriminate.
+  (* Add *)
+  simpl in Hord. apply negb_true_iff in Hord. simpl. unfold do_add, post, with_props. split.
+  - split; [|split; [|split]]; simpl.
+    + intro k'. simpl. unfold upd. destruct (kind_eqb k k'); [reflexivity|apply Hf].
+    + intros k' x Hin. simpl in Hin. unfold upd in Hin. destruct (kind_eqb k k').
+      * apply in_app_or in Hin. destruct Hin as [Hin|[Hin|[]]]; [eapply Ho; eauto|subst x; exact Hord].
+      * eapply Ho; eauto.
+    + intros t e Hin. destruct (Hok t e Hin) as [H1 H2]. unfold ent_R, Rcalm, ref_calm in *. simpl.
+      assert (Happ : forall k' r, match ridx r with Some j => nth_error (props d k') j = Some (rname r) | None => special (rname r) = true end ->
+                match ridx r with Some j => nth_error (upd (props d) k (props d k ++ [n]) k') j = Some (rname r) | None => special (rname r) = true end).
+      { intros k' r H. destruct (ridx r); [|exact H]. unfold upd. destruct (kind_eqb k k') eqn:E; [|exact H].
+        apply kind_eqb_eq in E. subst k'. rewrite nth_error_app1; [exact H|]. apply nth_error_Some. congruence. }
+      split; apply Happ; assumption.
+    + exact Hu.
+  - split; [|split]; simpl; auto. intro k'. unfold upd. rewrite <- (Hp k). destruct (kind_eqb k k'); [reflexivity|apply Hp].
+Qed.
+
+Lemma run_calm : forall ph h d a,
+  calm h = true -> ordinary h = true -> defined_from ph a h = true -> InvC d -> Sim d a ->
+  InvC (run_from false ph d h) /\ Sim (run_from false ph d h) (arun_from ph a h).
+Proof.
+  induction h as [|o h IH]; intros d a Hc Hord Hdef HI HS; simpl; [split; assumption|].
+  unfold calm in Hc. simpl in Hc. apply andb_true_iff in Hc. destruct Hc as [Hc1 Hc2].
+  apply ordinary_cons in Hord. destruct Hord as [Ho Hh].
+  simpl in Hdef. apply andb_true_iff in Hdef. destruct Hdef as [Hd1 Hd2].
+  destruct (step_calm ph o d a Hc1 Ho Hd1 HI HS) as [HI' HS']. apply IH; assumption.
+Qed.
+
+Lemma save_assoc_calm : forall ph h t id s,
+  calm h = true -> ordinary h = true -> sets_defined ph h = true -> has_slot ph t s = true ->
+  saved_meaning ph (run false ph h) t id s = of_assoc (assoc ph h t id s).
+Proof.
+  intros ph h t id s Hc Hord Hdef Hslot. unfold run, assoc, arun.
+  destruct (run_calm ph h init ainit Hc Hord Hdef InvC_init Sim_init) as [HI HS].
+  apply saved_meaning_sound; auto; [apply InvC_sound; exact HI|apply HI].
+Qed.
+
+Lemma analysis_calm : forall ph h t id s,
+  calm h = true -> ordinary h = true -> sets_defined ph h = true -> has_slot ph t s = true ->
+  analysis_meaning ph (run false ph h) t id s = of_assoc (assoc ph h t id s).
+Proof.
+  intros ph h t id s Hc Hord Hdef Hslot. unfold run, assoc, arun.
+  destruct (run_calm ph h init ainit Hc Hord Hdef InvC_init Sim_init) as [HI HS].
+  apply analysis_meaning_sound; auto. apply InvC_sound; exact HI.
+Qed.
+
+(* ---------------------------------------------------------------------------------------- *)
+(* the analysis gate: what consistencyCheckOK establishes, for any state of either variant    *)
+Lemma ref_consistent_resolve : forall l r, ref_consistent l r = true -> resolve l (ridx r) = MName (rname r).
+Proof.
+  intros l r H. unfold ref_consistent in H. unfold resolve. destruct (ridx r); [|discriminate].
+  destruct (nth_error l n); [|discriminate]. apply String.eqb_eq in H. subst. reflexivity.
+Qed.
+Lemma idx_consistent_resolve : forall l r, idx_consistent l r = true -> ridx r <> None -> resolve l (ridx r) = MName (rname r).
+Proof.
+  intros l r H Hn. unfold idx_consistent in H. destruct (ridx r) eqn:E; [|contradiction].
+  rewrite <- E. apply ref_consistent_resolve. unfold ref_consistent. rewrite E.
+  unfold ref_consistent in H. rewrite E in H. exact H.
+Qed.
+
+Lemma gate_checks : forall d, gate d = true ->
+  (forall e, In e (ents d TLabel) -> has_block_type (rname (er1 e)) = true ->
+     resolve (props d KBlock) (ridx (er1 e)) = MName (rname (er1 e))) /\
+  (forall t e, t <> TLabel -> In e (ents d t) -> ridx (er1 e) <> None ->
+     resolve (props d (k1 t)) (ridx (er1 e)) = MName (rname (er1 e))) /\
+  (forall t e, In e (ents d t) -> ridx (er2 e) <> None ->
+     resolve (props d KCirc) (ridx (er2 e)) = MName (rname (er2 e))).
+Proof.
+  intros d H. unfold gate in H. apply andb_true_iff in H. destruct H as [_ H].
+  unfold consistency in H. repeat (apply andb_true_iff in H; destruct H as [H ?]).
+  rewrite forallb_forall in *.
+  split; [|split].
+  - intros e Hin Hb. specialize (H e Hin). apply andb_true_iff in H. destruct H as [H _]. rewrite Hb in H.
+    apply ref_consistent_resolve. exact H.
+  - intros t e Ht Hin Hn. destruct t; try contradiction.
+    + specialize (H2 e Hin). apply andb_true_iff in H2. apply idx_consistent_resolve; [apply H2|exact Hn].
+    + specialize (H1 e Hin). apply andb_true_iff in H1. apply idx_consistent_resolve; [apply H1|exact Hn].
+    + specialize (H0 e Hin). apply andb_true_iff in H0. apply idx_consistent_resolve; [apply H0|exact Hn].
+  - intros t e Hin Hn. destruct t.
+    + specialize (H2 e Hin). apply andb_true_iff in H2. apply idx_consistent_resolve; [apply H2|exact Hn].
+    + specialize (H1 e Hin). apply andb_true_iff in H1. apply idx_consistent_resolve; [apply H1|exact Hn].
+    + specialize (H0 e Hin). apply andb_true_iff in H0. apply idx_consistent_resolve; [apply H0|exact Hn].
+    + specialize (H e Hin). apply andb_true_iff in H. apply idx_consistent_resolve; [apply H|exact Hn].
 Qed.
